@@ -17,7 +17,35 @@ variable {w : Nat}
 def StepOk (ps : List (Rebuild w)) (s s' : Rebuild w) (src : List (Instr w)) : Prop :=
   ∃ new, s'.insts = s.insts ++ new ∧
     ∀ M0 σE σS, Rel s ps M0 σE σS →
-      Sim (fun σS' σE' => ∃ M0', Rel s' ps M0' σE' σS') src new σS σE
+      Sim (fun σS' σE' => ∃ M0', Rel s' ps M0' σE' σS') src new σS σE ∧ ¬ Bad new σE
+
+/-- Instruction lists without `loop` / `ifnz` never reach a `once` loop. -/
+theorem not_bad_of_noBlocks {l : List (Instr w)} (hl : ∀ i ∈ l, C01Dse.isBlock i = false) (σ : State w) :
+    ¬ Bad l σ := by
+  intro h
+  induction h with
+  | here _ => simpa [C01Dse.isBlock] using hl _ (List.mem_cons_self)
+  | outOk _ _ ih => exact ih (fun i hi => hl i (List.mem_cons_of_mem _ hi))
+  | inOk _ _ ih => exact ih (fun i hi => hl i (List.mem_cons_of_mem _ hi))
+  | «calc» _ ih => exact ih (fun i hi => hl i (List.mem_cons_of_mem _ hi))
+  | loopSkip _ _ _ => simpa [C01Dse.isBlock] using hl _ (List.mem_cons_self)
+  | loopIter _ _ _ _ => simpa [C01Dse.isBlock] using hl _ (List.mem_cons_self)
+  | loopIn _ _ _ => simpa [C01Dse.isBlock] using hl _ (List.mem_cons_self)
+  | ifSkip _ _ _ => simpa [C01Dse.isBlock] using hl _ (List.mem_cons_self)
+  | ifIter _ _ _ _ => simpa [C01Dse.isBlock] using hl _ (List.mem_cons_self)
+  | ifIn _ _ _ => simpa [C01Dse.isBlock] using hl _ (List.mem_cons_self)
+
+theorem noBlocks_calcs_then (comps : List (List (Int × Expr w))) (i : Instr w)
+    (hi : C01Dse.isBlock i = false) : ∀ j ∈ comps.map Instr.calc ++ [i], C01Dse.isBlock j = false := by
+  intro j hj
+  rcases List.mem_append.1 hj with h | h
+  · obtain ⟨g, _, rfl⟩ := List.mem_map.1 h; rfl
+  · simp at h; rw [h]; exact hi
+
+theorem noBlocks_calcs (comps : List (List (Int × Expr w))) :
+    ∀ j ∈ comps.map Instr.calc, C01Dse.isBlock (w := w) j = false := by
+  intro j hj
+  obtain ⟨g, _, rfl⟩ := List.mem_map.1 hj; rfl
 
 theorem MInv.congr {s s' : Rebuild w} {ps : List (Rebuild w)} {M0 E S : Mem w} (h : MInv s ps M0 E S)
     (hp : s'.pending = s.pending) (hw : s'.written = s.written) (hh : SameHdr s s') : MInv s' ps M0 E S :=
@@ -31,7 +59,8 @@ theorem EmitRes.rel {ps : List (Rebuild w)} {s s' : Rebuild w} {comps : List (Li
     (h : EmitRes ps s s' comps) {M0 : Mem w} {σE σS : State w} (hr : Rel s ps M0 σE σS) :
     Rel s' ps M0 (comps.foldl doCalc σE) σS := by
   obtain ⟨m1, m2, m3⟩ := foldl_doCalc_meta comps σE
-  refine ⟨by rw [m3]; exact hr.tr, by rw [m2]; exact hr.env, by rw [m1, h.hdr.2.2.1]; exact hr.ptr, ?_⟩
+  refine ⟨by rw [m3]; exact hr.tr, by rw [m2]; exact hr.env, by rw [m1, h.hdr.2.2.1]; exact hr.ptr,
+    by rw [h.noRet]; exact hr.nr, ?_⟩
   rw [memE_foldl_doCalc σE comps h.nodup, memS_foldl_doCalc]
   exact h.minv hr.inv
 
@@ -54,6 +83,7 @@ theorem output_sim {ps : List (Rebuild w)} {s s1 s' : Rebuild w} {comps : List (
     (hres : EmitRes ps s s1 comps) (src x : Int)
     (hval : ∀ M0 E S, MInv s1 ps M0 E S → E x = S (src + s.shift))
     (hp : s'.pending = s1.pending) (hw : s'.written = s1.written) (hh : SameHdr s1 s')
+    (hnr : s'.noReturn = s1.noReturn)
     {M0 : Mem w} {σE σS : State w} (hr : Rel s ps M0 σE σS) :
     Sim (fun σS' σE' => ∃ M0', Rel s' ps M0' σE' σS') [.output src]
       (comps.map Instr.calc ++ [.output x]) σS σE := by
@@ -70,7 +100,7 @@ theorem output_sim {ps : List (Rebuild w)} {s s1 s' : Rebuild w} {comps : List (
   intro _
   obtain ⟨p1, t1⟩ := output_fields σS src
   obtain ⟨p2, t2⟩ := output_fields (comps.foldl doCalc σE) x
-  refine ⟨M0, o2.symm, o3.symm, ?_, ?_⟩
+  refine ⟨M0, o2.symm, o3.symm, ?_, by rw [hnr]; exact hr1.nr, ?_⟩
   · show (σS.output src).2.ptr = ((comps.foldl doCalc σE).output x).2.ptr + s'.shift
     rw [p1, p2, hh.2.2.1]; exact hr1.ptr
   · show MInv s' ps M0 (memE ((comps.foldl doCalc σE).output x).2)
@@ -96,8 +126,9 @@ theorem step_output {ps : List (Rebuild w)} {s : Rebuild w} (hwf : Wf s) (src : 
     · intro M0 σE σS hrel
       have := output_sim (s' := { Opt.read s x with insts := (Opt.read s x).insts ++ [Instr.output x] })
         (EmitRes.refl ps hwf) src x
-        (fun M0 E S hi => retargetOutput_sound hi hx) hsame.2.2.2.2.2.2.2.1 hsame.2.2.2.2.2.2.1 hsame.hdr hrel
-      simpa using this
+        (fun M0 E S hi => retargetOutput_sound hi hx) hsame.2.2.2.2.2.2.2.1 hsame.2.2.2.2.2.2.1 hsame.hdr
+        hsame.2.2.2.2.2.1 hrel
+      exact ⟨by simpa using this, not_bad_of_noBlocks (by simp [C01Dse.isBlock]) _⟩
   · -- the value has to be materialized first
     rw [run_bind_ok] at hr
     obtain ⟨s1, os1, h1, h2⟩ := hr
@@ -114,10 +145,12 @@ theorem step_output {ps : List (Rebuild w)} {s : Rebuild w} (hwf : Wf s) (src : 
     · show (Opt.read s1 (src + s.shift)).insts ++ _ = _
       rw [hsame.2.2.2.2.2.2.2.2.2.1, res.insts, List.append_assoc]
     · intro M0 σE σS hrel
-      exact output_sim (s' := { Opt.read s1 (src + s.shift) with
+      exact ⟨output_sim (s' := { Opt.read s1 (src + s.shift) with
           insts := (Opt.read s1 (src + s.shift)).insts ++ [Instr.output (src + s.shift)] })
         res src (src + s.shift)
-        (fun M0 E S hi => (hi.S_absent hnone).symm) hsame.2.2.2.2.2.2.2.1 hsame.2.2.2.2.2.2.1 hsame.hdr hrel
+        (fun M0 E S hi => (hi.S_absent hnone).symm) hsame.2.2.2.2.2.2.2.1 hsame.2.2.2.2.2.2.1 hsame.hdr
+        hsame.2.2.2.2.2.1 hrel,
+        not_bad_of_noBlocks (noBlocks_calcs_then comps _ rfl) _⟩
 
 /-! ### `input` -/
 
@@ -142,12 +175,13 @@ theorem step_input {ps : List (Rebuild w)} {s : Rebuild w} (hwf : Wf s) (dst : I
     have henv : σS.env = (comps.foldl doCalc σE).env := by rw [m2]; exact hrel.env
     have htr : σS.trace = (comps.foldl doCalc σE).trace := by rw [m3]; exact hrel.tr
     obtain ⟨o1, o2, o3⟩ := input_rel (σS := σS) (σE := comps.foldl doCalc σE) dst (dst + s.shift) henv htr
+    refine ⟨?_, not_bad_of_noBlocks (noBlocks_calcs_then comps _ rfl) _⟩
     refine Sim.of_atomic (atomic_input dst) (atomic_calcs_then comps (atomic_input (dst + s.shift)))
       hrel.tr.symm o1 o2 o3 ?_
     intro hok
     obtain ⟨x, hS, hE, pS, pE⟩ := input_ok_mem (σS := σS) (σE := comps.foldl doCalc σE) dst (dst + s.shift)
       henv hok
-    refine ⟨M0, o2.symm, o3.symm, ?_, ?_⟩
+    refine ⟨M0, o2.symm, o3.symm, ?_, by show s1.noReturn = false; rw [c5]; exact hrel.nr, ?_⟩
     · show (σS.input dst).2.ptr = ((comps.foldl doCalc σE).input (dst + s.shift)).2.ptr + s1.shift
       rw [pS, pE, m1, c4.2.2.1]; exact hrel.ptr
     · show MInv ({ s1 with insts := s1.insts ++ [Instr.input (dst + s.shift)] } : Rebuild w) ps M0
@@ -198,13 +232,14 @@ theorem step_calc {ps : List (Rebuild w)} {s : Rebuild w} (hwf : Wf s) (calcs : 
     obtain ⟨d1, d2, d3⟩ := C01Dse.doCalc_meta σS calcs
     have hsrc : Atomic [Instr.calc calcs] (fun σ : State w => (true, [calcs].foldl doCalc σ)) :=
       atomic_calcs [calcs]
+    refine ⟨?_, not_bad_of_noBlocks (noBlocks_calcs comps) _⟩
     refine Sim.of_atomic hsrc (atomic_calcs comps) hrel.tr.symm rfl ?_ ?_ ?_
     · show (comps.foldl doCalc σE).trace = (doCalc σS calcs).trace
       rw [m3, d3]; exact hrel.tr.symm
     · show (comps.foldl doCalc σE).env = (doCalc σS calcs).env
       rw [m2, d2]; exact hrel.env.symm
     · intro _
-      refine ⟨M0, ?_, ?_, ?_, ?_⟩
+      refine ⟨M0, ?_, ?_, ?_, by rw [hsame.2.2.2.2.2.1, res.noRet]; exact hrel.nr, ?_⟩
       · show (doCalc σS calcs).trace = (comps.foldl doCalc σE).trace
         rw [m3, d3]; exact hrel.tr
       · show (doCalc σS calcs).env = (comps.foldl doCalc σE).env
